@@ -10,7 +10,7 @@ import subprocess
 import sys
 from concurrent.futures import ThreadPoolExecutor
 
-os.chdir("/verif")
+os.chdir(os.path.dirname(os.path.dirname(os.path.abspath(__file__))))
 ALL = ["C%02d" % i for i in range(1, 19)]
 args = sys.argv[1:]
 jobs = 2
